@@ -966,6 +966,13 @@ def _find_self(
     if instance_i is not None and instance_i < len(args):
         return args[instance_i]
 
+    if instance_i is None and len(param_names) > 0:
+        # The instance is the first parameter of a method, whatever its name.
+        if len(args) > 0:
+            return args[0]
+
+        return kwargs[param_names[0]]
+
     return kwargs["self"]
 
 
